@@ -402,6 +402,14 @@ func minInt(a, b int) int {
 func (t *FnTrans) ghostAssign(g *Clause, env *Env, lhsE *Expr, val string, havoc bool) {
 	switch lhsE.Op {
 	case "id":
+		if ls, ok := t.ct.GhostLocal[lhsE.Name]; ok && env.self {
+			c := t.comp("GL."+lhsE.Name, ls)
+			if havoc {
+				val = t.newConst(c+"@choose", ls)
+			}
+			t.set(c, val)
+			return
+		}
 		s, ok := t.eng.specs.Ghosts[env.pkg.Path()+"."+lhsE.Name]
 		if !ok {
 			t.fail("%s:%d: unknown ghost global %s", g.File, g.Line, lhsE.Name)
@@ -593,7 +601,9 @@ func (t *FnTrans) computeLoopWrites() {
 				}
 				lhs := strings.TrimSpace(g.Text[:i])
 				pk := t.fn.Pkg.Pkg.Path()
-				if gs, ok := t.eng.specs.Ghosts[pk+"."+lhs]; ok {
+				if ls, ok := t.ct.GhostLocal[lhs]; ok {
+					t.w(l, "GL."+lhs, ls)
+				} else if gs, ok := t.eng.specs.Ghosts[pk+"."+lhs]; ok {
 					t.w(l, "GG."+pk+"."+lhs, gs)
 				} else {
 					t.setAll(l, 561) // ghost field of some object: havoc conservatively
